@@ -438,3 +438,16 @@ func (s *Symbols) strAxioms(used map[string]bool) []string {
 	}
 	return out
 }
+
+// litOf: the Go string literal behind a string-constant symbol.
+func (s *Symbols) litOf(name string) (string, bool) {
+	if name == "str!empty" {
+		return "", true
+	}
+	for v, n := range s.strs {
+		if n == name {
+			return v, true
+		}
+	}
+	return "", false
+}
